@@ -1,5 +1,14 @@
 /-
   Lemmas about the pointer-level deque model `MiniMoka.DequeHeap`.
+
+  Contents: heap and monad evaluation rules; `WF`/`Detached`; the transition relations
+  `Pres` (relinking only), `Frees`, `Allocs`; one `…_spec` lemma per operation stated on list
+  indices (`l[k]? = some a`) and proved by symbolic execution plus index arithmetic; the
+  list-level restatements `…_ok` (`l.erase a`, `succOf`, `leave`); the iterator
+  (`iterRun_all`); `Drop` (`dropAll_spec`); the command language `Cmd`, the pure list
+  interpreter `rstep`/`rrun`, the simulation invariant `Sim` and `sim_run`.
+
+  Core Lean only (no Mathlib).
 -/
 import MiniMoka.DequeHeap
 
@@ -569,6 +578,12 @@ structure Frees (s s' : DState) (a : Nat) : Prop where
   wasLive : ∃ n, hget s.heap a = some n
   elems : ∀ b, b ≠ a → (hget s'.heap b).map (·.elem) = (hget s.heap b).map (·.elem)
 
+/-- Freeing `a` changes the liveness of no other address. -/
+theorem Frees.live_iff {s s' a} (hp : Frees s s' a) (b : Nat) (hb : b ≠ a) :
+    (hget s'.heap b).isSome = (hget s.heap b).isSome := by
+  have := congrArg Option.isSome (hp.elems b hb)
+  simpa using this
+
 theorem popFront_nil {s} (h : WF s []) : popFront s = .ok (none, s) := by
   simp [popFront, popFrontBox_nil h]
 
@@ -732,6 +747,12 @@ structure Allocs (s s' : DState) (e : Nat) : Prop where
   wasDead : hget s.heap s.next = none
   elem : (hget s'.heap s.next).map (·.elem) = some e
   elems : ∀ b, b ≠ s.next → (hget s'.heap b).map (·.elem) = (hget s.heap b).map (·.elem)
+
+/-- Allocating changes the liveness of no other address. -/
+theorem Allocs.live_iff {s s' e} (hp : Allocs s s' e) (b : Nat) (hb : b ≠ s.next) :
+    (hget s'.heap b).isSome = (hget s.heap b).isSome := by
+  have := congrArg Option.isSome (hp.elems b hb)
+  simpa using this
 
 theorem pushBack_spec {s l} (h : WF s l) (e : Nat) :
     ∃ s', pushBack e s = .ok (s.next, s') ∧ (WF s' (l ++ [s.next]) ∧ Allocs s s' e ∧
